@@ -145,6 +145,18 @@ def run(ctx):
         a = [[rng.randrange(8), rng.randrange(8)] for _ in range(2)]
         e = [[rng.randrange(8), rng.randrange(8)] for _ in range(2)]
         run_case(ctx, W, np, a, e, 2, 2, None, None, None, np.uint8, reqs)
+    # ---- every state of one state dtype against every state of another (bool holds 0 / 1, uint8 and int8 all eight states): the table
+    #      decides, whatever the two dtypes are ------------------------------------------------------------------------------------------
+    for dt_a in (np.bool_, np.uint8, np.int8):
+        for dt_e in (np.bool_, np.uint8, np.int8):
+            for x in range(2 if dt_a is np.bool_ else 8):
+                for y in range(2 if dt_e is np.bool_ else 8):
+                    run_case(ctx, W, np, [[x]], [[y]], 1, 1, None, None, None, dt_a, reqs, dtype_e=dt_e)
+            # and side by side in one window (a vectorised comparison sees them together)
+            xs = list(range(2 if dt_a is np.bool_ else 8)); ys = list(range(2 if dt_e is np.bool_ else 8))
+            pairs = [(x, y) for x in xs for y in ys]
+            run_case(ctx, W, np, [[p[0]] for p in pairs], [[p[1]] for p in pairs], 1, 1, None, None, None, dt_a, reqs, dtype_e=dt_e)
+            ctx.count("dtypes", f"all states {np.dtype(dt_a)} vs {np.dtype(dt_e)}")
     # ---- larger waveforms, windows, mismatches, other dtypes ----------------------------------------------
     for _ in range(500 if ctx.quick else 20000):
         na = rng.randint(1, 5)
